@@ -45,7 +45,7 @@ def file_task(task):
             rng = np.random.default_rng([task["seed"], task["shard"], c, 5])
             n_mut = int(rng.integers(1, 6))
             D = int(rng.integers(1, 5))
-            G = int(rng.choice([2, 3, 11, 21, 101, 201]))
+            G = int(rng.choice([2, 3, 11, 21, 101, 201, 257, 301]))
             density = ["binomial", "beta-binomial"][c % 2]
             precision = float(10 ** rng.uniform(-1, 5))
             op = [0.0, 1e-4, 0.3][c % 3]
@@ -235,7 +235,7 @@ def run(ctx):
     quick = ctx.tier == "quick"
     ctx.rule = ("generated input files: 1-5 mutations x 1-4 samples, read counts incl. depth 0, alt in {0,d}, depth to 1e6, "
                 "major 1-8, minor 0..major, normal 1-3, tumour content incl. 1.0 and 1e-3, error rate 1e-6..0.49, both "
-                "densities, precision 0.1..1e5, grids 2..201, with/without cluster file and cluster outlier column, loss "
+                "densities, precision 0.1..1e5, grids 2..301, with/without cluster file and cluster outlier column, loss "
                 "probability assigned by the program (with / without a chrom column, low 1e-4/0.02/0.3, high 0.4/0.9); every "
                 "grid cell against the reference mixture; normalisation over all alternate counts for depth<=300; "
                 "distinct = generated file / copy-number state")
